@@ -17,6 +17,7 @@ Objects are numbered in order of creation (psutil.Process(pid) and objects first
 """
 import errno
 import os
+import sys
 
 from pv import gallina as G
 from pv.canon import Exc, T, Val, exc_name
@@ -736,6 +737,116 @@ def gen_history(rng, n_events, flavour):
     return {"kind": "hist", "cls": cls, "evs": evs}
 
 
+# ------------------------------------------------------------------ process-wide "who am I" state (wave 8)
+def alias_own_pid(case, pid=None, every=2):
+    """The same history, observed by a process whose own os.getpid() is the NUMBER of a PID of the table (fake procfs /
+    foreign PID namespace): case["ownpid"]; every `every`-th Process(pid) on that PID becomes the call form Process().
+    The Coq term is unchanged (the unchanged code consults os.getpid() only to default pid=None)."""
+    evs = case["evs"]
+    if pid is None:
+        count = {}
+        for e in evs:
+            if e[0] == "new" and isinstance(e[1], int) and 0 <= e[1] < PID_MAX:
+                count[e[1]] = count.get(e[1], 0) + 1
+        if not count:
+            sp = [e[1] for e in evs if e[0] == "spawn"]
+            if not sp:
+                return None
+            pid = sp[0]
+        else:
+            pid = max(sorted(count), key=lambda q: count[q])
+    out, n = [], 0
+    for e in evs:
+        if e[0] == "new" and e[1] == pid and len(e) == 2:
+            n += 1
+            out.append(["new", pid, "self"] if n % every == 1 or every == 1 else list(e))
+        else:
+            out.append(e)
+    c = dict(case, evs=out, ownpid=pid, cls=case.get("cls", "hist") + "+ownpid")
+    return c
+
+
+def own_pid_block():
+    """the systematic block of wave 8 (never sampled): the observer builds Process() / Process(os.getpid()) for ITS OWN number,
+    warms whatever can be memoised, the table entry of that number dies (zombie / reaped) / is recycled (adjacent or distant
+    start tick), construction is attempted while the entry is missing, fresh objects are built in both call forms and compared
+    with the old one (==, hash, is_running both ways) -- each shape with own-pid aliasing ON (os.getpid() == table PID,
+    Process() call form) and OFF; then the same continued in a real os.fork() child whose os.getpid() is another table PID
+    (or the real one), with a handle on the parent's number taken in the child."""
+    out, seen = [], set()
+    warms = {"none": [], "isrun": [["isrun", 0]], "hash": [["hasheq", 0, 0]], "ctime": [["ctime", 0], ["boot"], ["ppid", 0]],
+             "iter": [["iter"], ["isrun", 0]]}
+
+    def add(c):
+        key = repr(sorted((k, v) for k, v in c.items() if k != "cls"))
+        if key not in seen:
+            seen.add(key)
+            out.append(c)
+
+    def shapes(P, self0, warm, end, mid, reuse, t0):
+        first = ["new", P, "self"] if self0 else ["new", P]
+        evs = [["spawn", 1, 50, 0, "init"], ["spawn", P, t0, 1, "a b"], first] + [list(x) for x in warms[warm]]
+        if end in ("zombie", "exit+reap"):
+            evs.append(["exit", P])
+        sh = Shadow()
+        for x in evs:
+            sh.apply(x)
+        n = len(sh.objs)                       # objects so far (process_iter() of the warm-up adds one per PID)
+        if end in ("reap", "exit+reap"):
+            evs.append(["reap", P])
+            if mid == "new":
+                evs.append(["new", P])         # NoSuchProcess demanded: no object
+            elif mid == "self":
+                evs.append(["new", P, "self"])
+            elif mid == "isrun":
+                evs.append(["isrun", 0])
+            if reuse == "adjacent":
+                evs.append(["spawn", P, t0 + 1, 1, "a b"])
+            elif reuse == "distant":
+                evs.append(["spawn", P, 2 ** 31 + 1, 1, "c"])
+        evs += [["new", P, "self"], ["new", P]]
+        present = end in ("alive", "zombie") or reuse != "none"
+        if present:
+            a, b = n, n + 1
+            evs += [["eq", 0, a], ["eq", b, 0], ["hasheq", 0, a], ["hasheq", b, 0], ["eq", a, b], ["hasheq", a, b],
+                    ["isrun", 0], ["isrun", a], ["isrun", b], ["eq", 0, b], ["hasheq", 0, b], ["isrun", 0],
+                    ["eqother", 0, "int"]]
+        else:
+            evs += [["isrun", 0], ["hasheq", 0, 0], ["eq", 0, 0], ["isrun", 0], ["new", P, "self"]]
+        return evs
+
+    for P in (3, IMPORT_PID):
+        for self0 in ((True, False) if P == 3 else (True,)):
+            for warm in (("none", "isrun", "hash", "ctime", "iter") if P == 3 else ("none",)):
+                for end in ("alive", "zombie", "reap", "exit+reap"):
+                    gone = end in ("reap", "exit+reap")
+                    mids = ("none", "new", "self", "isrun") if warm == "none" else ("none", "self")
+                    for mid in (mids if gone else ("none",)):
+                        for reuse in (("none", "adjacent", "distant") if gone else ("none",)):
+                            evs = shapes(P, self0, warm, end, mid, reuse, 100)
+                            on = {"kind": "hist", "cls": "ownpid-block-on", "evs": evs, "ownpid": P}
+                            off = {"kind": "hist", "cls": "ownpid-block-off",
+                                   "evs": [e[:2] if e[0] == "new" else e for e in evs]}
+                            add(on)
+                            if P == 3:
+                                add(off)
+                            if P == 3 and warm in ("none", "hash") and mid in ("none", "self"):
+                                # the history continued in a forked child (fork right after the warm-up): the child is
+                                # table PID 2 (child of P) / has the worker's real PID, not in the table
+                                k = 3 + len(warms[warm])
+                                pre = evs[:2] + [["spawn", 2, 300, P, "child"]] + evs[2:]
+                                # (in the child os.getpid() is 2: handles on P = os.getppid() are taken as Process(P);
+                                #  the child also builds Process() for itself and compares it with its parent's objects)
+                                post = [e[:2] if e[0] == "new" else e for e in pre[k + 1:]]
+                                sh = Shadow()
+                                for x in pre:
+                                    sh.apply(x)
+                                add(dict(on, cls="ownpid-fork", evs=pre[:k + 1] + post + [["new", 2, "self"], ["eq", 0, len(sh.objs)],
+                                                                                         ["isrun", 0]], fork_at=k + 1, child_pid=2))
+                                add(dict(off, cls="ownpid-fork", evs=[e[:2] if e[0] == "new" else e for e in pre], fork_at=k + 1))
+    return out
+
+
 # ------------------------------------------------------------------ Coq terms
 def _setter_term(s):
     k = s[0]
@@ -1162,6 +1273,12 @@ def impl_run(case, coq, env):
              (os, "waitpid", os.waitpid), (os, "kill", os.kill), (cext_posix, "setpriority", cext_posix.setpriority),
              (cext, "proc_ioprio_set", cext.proc_ioprio_set), (cext, "proc_cpu_affinity_set", cext.proc_cpu_affinity_set),
              (resource, "prlimit", resource.prlimit)]
+    saved.append((os, "getpid", os.getpid))
+    own = case.get("ownpid")
+    if own is not None:
+        # own-PID aliasing: the observer's os.getpid() is the NUMBER of a PID of the table psutil reads (PROCFS_PATH points
+        # at a foreign PID namespace / a fake procfs).  The unchanged code consults os.getpid() only to default pid=None.
+        os.getpid = lambda: own
     os.waitpid = f_waitpid
     _pcommon.open_binary = _pl.open_binary = f_open_binary
     os.kill, cext_posix.setpriority = f_kill, f_setprio
@@ -1252,8 +1369,14 @@ def impl_run(case, coq, env):
             return p.cpu_affinity(list(s[1]))
         raise ValueError(k)
 
-    def new_obj(pid):
-        p = psutil.Process(pid)
+    def new_obj(pid, noarg=False):
+        if noarg:
+            # the call form Process(): "my own process"; only generated while os.getpid() answers this table PID
+            if own is None or own != pid:
+                raise AssertionError("harness: Process() call form without own-pid aliasing on this PID")
+            p = psutil.Process()
+        else:
+            p = psutil.Process(pid)
         objs.append(p)
         return len(objs) - 1
 
@@ -1328,8 +1451,43 @@ def impl_run(case, coq, env):
         return r if isinstance(r, bool) else T("NotBool", repr(r))
 
     out = []
+    fork_at, in_child, wfd, child = case.get("fork_at"), False, None, None
+    real_waitpid = saved[2][2]
     try:
         for e in case["evs"]:
+            if fork_at is not None and len(out) == fork_at and not in_child:
+                # a REAL os.fork(): every object, generator and module state built so far is inherited by the child, which
+                # continues the history (its os.getpid() differs from the parent's) and reports through a pipe
+                import json
+                rfd, wfd = os.pipe()
+                sys.stdout.flush()
+                sys.stderr.flush()
+                child = os.fork()
+                if child == 0:
+                    in_child = True
+                    os.close(rfd)
+                    cp = case.get("child_pid")
+                    if cp is not None:
+                        os.getpid = lambda: cp
+                        own = cp
+                    out = []
+                else:
+                    os.close(wfd)
+                    wfd = None
+                    buf = b""
+                    while True:
+                        chunk = os.read(rfd, 65536)
+                        if not chunk:
+                            break
+                        buf += chunk
+                    os.close(rfd)
+                    real_waitpid(child, 0)
+                    child = None
+                    rep = json.loads(buf.decode()) if buf else {"error": "the forked child reported nothing"}
+                    if "error" in rep:
+                        raise RuntimeError("forked child: " + rep["error"])
+                    out.extend(rep["out"])
+                    break
             k = e[0]
             mark = len(log)
             if k in KERNEL_EVENTS:
@@ -1338,7 +1496,7 @@ def impl_run(case, coq, env):
             elif coq["model"][len(out)][0] == T("OutOfModel"):
                 r = T("OutOfModel")      # the model does not cover this call in this state: not issued
             elif k == "new":
-                r = outcome(lambda: new_obj(e[1]), lambda i: T("Obj", i))
+                r = outcome(lambda: new_obj(e[1], len(e) > 2 and e[2] == "self"), lambda i: T("Obj", i))
             elif k == "popen":
                 r = outcome(lambda: new_popen(e[1]), lambda i: T("Obj", i))
             elif k == "boot":
@@ -1403,7 +1561,28 @@ def impl_run(case, coq, env):
             if ch is not None:
                 r = T("BindingChanged", ch, r)
             out.append([r, log[mark:]])
+        if in_child:
+            import json
+            data = json.dumps({"out": out}).encode()
+            while data:
+                data = data[os.write(wfd, data):]
+            os._exit(0)
+    except BaseException as ex:  # noqa
+        if in_child:
+            import json
+            import traceback
+            try:
+                os.write(wfd, json.dumps({"error": traceback.format_exc()[-1500:]}).encode())
+            finally:
+                os._exit(1)
+        raise
     finally:
+        if child:
+            try:
+                saved[3][2](child, 9)
+                real_waitpid(child, 0)
+            except Exception:
+                pass
         for g in gens:
             try:
                 g.close()
